@@ -5,6 +5,7 @@ import (
 	"go/ast"
 	"go/token"
 	"go/types"
+	"strings"
 
 	"golang.org/x/tools/go/ssa"
 
@@ -427,31 +428,51 @@ func c05Wiring(r *core.Run) {
 			}
 			calls++
 			key := n.next(serveRESP + " call of h.handler")
-			why := ""
-			for _, cd := range core.Conditions(in.Block()) {
-				switch v := cd.Val.(type) {
-				case *ssa.Call:
-					if cd.Truth && v.Call.StaticCallee() == nil && !v.Call.IsInvoke() && core.LastField(v.Call.Value) == "precond" {
-						why = "on the true edge of h.precond(conn, cmd)"
-						precondGuarded++
-					}
-				case *ssa.BinOp:
-					if v.Op == token.EQL && cd.Truth || v.Op == token.NEQ && !cd.Truth {
-						x, y := v.X, v.Y
-						if k, ok := y.(*ssa.Const); ok {
-							if k.IsNil() && core.LastField(x) == "precond" {
-								why = "no precondition configured (h.precond == nil)"
-							} else if k.Value != nil && k.Value.String() == "0" && core.IsLenOf(func(ssa.Value) bool { return true })(x) {
-								why = "empty argument vector (handler only reports the malformed request)"
-							}
+			classify := func(conds []core.Cond) (string, bool) {
+				for _, cd := range conds {
+					switch v := cd.Val.(type) {
+					case *ssa.Call:
+						if cd.Truth && v.Call.StaticCallee() == nil && !v.Call.IsInvoke() && core.LastField(v.Call.Value) == "precond" {
+							return "on the true edge of h.precond(conn, cmd)", true
 						}
-						if isUpdateRoutingName(x) || isUpdateRoutingName(y) {
-							why = "the routing-table push (command == Internal.UpdateRouting) is the documented bypass"
+					case *ssa.BinOp:
+						if v.Op == token.EQL && cd.Truth || v.Op == token.NEQ && !cd.Truth {
+							x, y := v.X, v.Y
+							if k, ok := y.(*ssa.Const); ok {
+								if k.IsNil() && core.LastField(x) == "precond" {
+									return "no precondition configured (h.precond == nil)", false
+								} else if k.Value != nil && k.Value.String() == "0" && core.IsLenOf(func(ssa.Value) bool { return true })(x) {
+									return "empty argument vector (handler only reports the malformed request)", false
+								}
+							}
+							if isUpdateRoutingName(x) || isUpdateRoutingName(y) {
+								return "the routing-table push (command == Internal.UpdateRouting) is the documented bypass", false
+							}
 						}
 					}
 				}
-				if why != "" {
-					break
+				return "", false
+			}
+			why, isPre := classify(core.Conditions(in.Block()))
+			if isPre {
+				precondGuarded++
+			}
+			if why == "" && len(in.Block().Preds) > 1 {
+				// a || b || c: every way into the block must carry an allowed condition
+				all := true
+				var whys []string
+				for _, pb := range in.Block().Preds {
+					w, pre := classify(edgeConds(pb, in.Block()))
+					if w == "" {
+						all = false
+					}
+					if pre {
+						precondGuarded++
+					}
+					whys = append(whys, w)
+				}
+				if all {
+					why = "every edge into the call is allowed: " + strings.Join(whys, " | ")
 				}
 			}
 			r.Check(why != "", "precondition-wiring", key, site(r, instrPos(in)), why,
